@@ -46,7 +46,7 @@ def main():
         jobs.append((d, os.path.join(p, 'patch.diff'), meta))
     for e in extra:
         meta = json.load(open(os.path.join(e, 'meta.json'))) if os.path.exists(os.path.join(e, 'meta.json')) else {}
-        meta.setdefault('kind', 'benign')
+        meta['kind'] = 'benign'  # extras are refactorings under test
         jobs.append((e, os.path.join(e, 'patch.diff'), meta))
     free = list(wts)
 
